@@ -118,6 +118,35 @@ pub fn run(ctx: &Ctx) -> i32 {
         res
     });
     sum.merge(big);
+    // ---- last frames with 65535 .. 70000 chunks: the count needs the 32-bit field; meaningful chunks sit at the very end ----
+    let nmany = ctx.tier.pick(4u64, 16u64);
+    let many = run_stage(ctx, "many-chunk-last-frame", nmany, |i| {
+        let mut rng = Rng::derive(ctx.seed, "C13-many", i);
+        let mut cfg = GenCfg::tiny();
+        cfg.max_frames = 2;
+        cfg.max_layers = 3;
+        let (sp, palprog) = gen::gen_sprite(&mut rng, &cfg);
+        let mut spec = compile_with(&sp, &mut rng, &Variation::none(), &palprog);
+        let last = spec.frames.len() - 1;
+        let total = [65_535usize, 65_536, 65_538, 70_000][(i % 4) as usize];
+        // the frame's own chunks (cels, user data; in frame 0 also layers, tags, slices) stay behind the padding
+        let keep = spec.frames[last].chunks.len().min(1 + (i as usize / 4) % 4);
+        crate::program::pad_frame(&mut spec, last, total, keep, &mut rng);
+        let (bytes, map) = encode(&spec);
+        let mut res = CaseResult::ok(crate::rng::hash_bytes(&bytes), 0, "many-chunk-last-frame-file");
+        if let Err(e) = load(&bytes) {
+            res.violations.push(Violation::new(format!("load-failed|complete-file|{}", err_sig(&e)), format!("complete file whose last frame has {} chunks failed to load: {}", total, e)).with_input(&bytes));
+            return res;
+        }
+        // every offset of the first 512 bytes and of the last 1024, every 997th in between
+        let end = map.end_of_frames;
+        let off = ctx.seed as usize % 997;
+        let mut it = (0..end).filter(|o| *o < 512 || *o + 1024 >= end || *o % 997 == off);
+        enumerate(&bytes, &mut it, "many-chunk-last-frame", &mut res);
+        res.count("many_chunk_last_frame_chunks", total as u64);
+        res
+    });
+    sum.merge(many);
     // corpus
     let corpus = crate::corpus::list(ctx);
     let thorough = ctx.tier == Tier::Thorough;
